@@ -49,9 +49,10 @@ func (f *Cond) Call(s *slip.Scope, args slip.List, depth int) (result slip.Objec
 		if !ok || len(clause) == 0 {
 			slip.TypePanic(s, depth, "clause", a, "list")
 		}
-		if slip.EvalArg(s, clause, 0, d2) == nil {
+		if result = slip.EvalArg(s, clause, 0, d2); result == nil {
 			continue
 		}
+		// A clause with only a test form returns the value of the test.
 		for i := 1; i < len(clause); i++ {
 			result = slip.EvalArg(s, clause, i, d2)
 		}
